@@ -102,6 +102,9 @@ def tlc(module, cwd, cfg=None, env=None, workers=1, timeout=900, lib=None, extra
         jopts += " -XX:TieredStopAtLevel=1"      # integer-only trace specs: skip the C2 compiler
     if lib:
         jopts += " -DTLA-Library=" + ":".join(lib)
+    tmpd = md + "-tmp"                            # TLC and SANY litter java.io.tmpdir (SANY*, tlc-*): keep that inside the run's own directory
+    os.makedirs(tmpd, exist_ok=True)
+    jopts += " -Djava.io.tmpdir=" + tmpd
     e = {"JAVA_TOOL_OPTIONS": jopts}
     if env:
         e.update({k: str(v) for k, v in env.items()})
@@ -118,6 +121,7 @@ def tlc(module, cwd, cfg=None, env=None, workers=1, timeout=900, lib=None, extra
         p = sh(cmd, cwd=cwd, env=e, timeout=timeout, check=False)
     finally:
         shutil.rmtree(md, ignore_errors=True)
+        shutil.rmtree(tmpd, ignore_errors=True)
     out = p.stdout
     gen = dist = 0
     for m in _STAT.finditer(out):
